@@ -320,6 +320,19 @@ def relation_check(ctx, rng, spec, rel, mode, cross, cond_max=1e8):
                         cl, nl = float("nan"), type(ex).__name__
                 ctx.close("chi2-representation-invariant", cl, c * cs0, max(c, 1.0) * bound * 4 + 1e-9 * abs(cs0), dict(feats, variant="re-represented graph written to .g2o and read back"),
                           {"n_edges": [len(sub2["edges"]), nl]}, case)
+                # whatever else the file carries (or does not carry) about a vertex - e.g. which vertices are held fixed - must come back the same for both
+                # representations: the original sub-graph through the file as well, flags compared in list order (both relations keep the vertex order)
+                try:
+                    pth0 = os.path.join(dtmp, "orig.g2o")
+                    with np.errstate(all="ignore"):
+                        M.build(sub0).to_g2o(pth0)
+                        gl0 = M.Graph.from_g2o(pth0)
+                    if isinstance(nl, int):
+                        f0, f2 = [bool(v.fixed) for v in gl0._vertices], [bool(v.fixed) for v in gl._vertices]
+                        ctx.check("chi2-representation-invariant", f0 == f2, dict(feats, variant="fixed flags after the file round trip of both representations"),
+                                  {"flags_original": f0, "flags_rerepresented": f2}, case)
+                except Exception as ex:  # noqa: BLE001
+                    ctx.count("file_variant_original_roundtrip_raised:" + type(ex).__name__)
                 ctx.count("class:rerepresented_graph_through_file")
             finally:
                 shutil.rmtree(dtmp, ignore_errors=True)
